@@ -21,7 +21,7 @@ def one(pd):
     try:
         subprocess.run(f"git -C /repo archive HEAD src | tar -x -C {d}", shell=True, check=True)
         base = verdicts(sources(d))
-        r = subprocess.run(["git", "apply", str(pd / "patch.diff")], cwd=d, capture_output=True, text=True)
+        r = subprocess.run(["git", "apply", str((pd / "patch.diff").resolve())], cwd=d, capture_output=True, text=True)
         if r.returncode: return str(pd), None, "patch does not apply: " + r.stderr[:150]
         v = verdicts(sources(d)); fired = {}
         for pr in PROPS:
@@ -38,7 +38,7 @@ def main():
     with cf.ProcessPoolExecutor(12) as ex: res = list(ex.map(one, dirs))
     bad = 0
     for name, fired, err in res:
-        if err: print(name, "ERROR", err); continue
+        if err: print(name, "ERROR", err); bad += 1; continue
         if fired:
             bad += 1; print(name, "FALSE-ALARM")
             for k, v in fired.items():
